@@ -15,10 +15,10 @@ import vlib
 
 MODEL = "consumer"
 MODULE = "Model.Consumer"
-TIED = ["C03_single_commit_committed_is_acked", "C03_single_commit", "C03_commit_is_last_processed", "C03_no_delivery_after_failure",
-        "C03_commit_le_processed", "C03_commit_le_processed_offsets", "C03_store_is_processed", "C03_resume_asks_coordinator",
-        "C03_resume_position", "C03_resume_nothing_stored", "C03_resume",
-        "C03_no_delivery_after_failure_any_fuel", "C03_commit_le_processed_any_fuel", "C03_store_is_processed_any_fuel", "C03_single_commit_any_fuel", "C03_resume_any_fuel"]
+TIED = ["C03_single_commit_committed_is_acked", "C03_single_commit", "C03_commit_is_last_processed",
+        "C03_no_delivery_after_failure", "C03_commit_le_processed", "C03_commit_le_processed_offsets",
+        "C03_store_is_processed", "C03_resume_asks_coordinator", "C03_resume_position", "C03_resume_nothing_stored",
+        "C03_resume", "C03_crash_resume", "C03_run_theorems_any_fuel", "C03_resume_any_fuel"]
 
 
 def libs():
